@@ -23,6 +23,7 @@ type c09Case struct {
 	Missing bool         `json:"missing,omitempty"` // the target directory given with WithTargetDir does not exist yet
 	PreOps  []string     `json:"preOps,omitempty"`
 	PreRoot bool         `json:"preRoot,omitempty"` // the first root already exists in the target (the real run would fail with "path already exists")
+	Full    bool         `json:"full,omitempty"`    // the dry run's target is a file system without room for a single entry (a dry run creates nothing, so it cannot notice)
 	NoIter  bool         `json:"noIter,omitempty"`  // output-md: with WithNoUseIterOfSimpleOutput (the non-iterator code path of the simple mode)
 }
 
@@ -59,6 +60,8 @@ func c09Check(c c09Case) string {
 	}
 	if c.PreRoot && !c.Missing && model.ValidElem(f[0].Name) {
 		dry.FS.Pre = []ops.FSEntry{{Path: f[0].Name, Kind: "d"}}
+	} else if c.Full && !c.Missing && c.Route != "mkdir-md" {
+		dry.FS.InodeLimit = 1
 	}
 	dres := pool("chroot").Run(&dry)
 	head := fmt.Sprintf("forest %s route=%s massive=%v exts=%q\n", f, c.Route, c.Massive, c.Exts)
@@ -205,6 +208,9 @@ func c09Record(col *collector, c c09Case) {
 	if c.NoIter && c.Route == "output-md" {
 		cl = append(cl, "no-iter-path")
 	}
+	if c.Full && !c.Missing && !c.PreRoot && c.Route != "mkdir-md" {
+		cl = append(cl, "dry-run-on-a-full-file-system")
+	}
 	if c.Massive {
 		cl = append(cl, "massive")
 	} else {
@@ -253,6 +259,7 @@ func TestC09Random(t *testing.T) {
 		}
 		c := c09Case{Forest: f, Route: route, Massive: rapid.IntRange(0, 2).Draw(rt, "massive") == 0, Exts: genExts(f.Names()).Draw(rt, "exts")}
 		c.NoIter = route == "output-md" && rapid.IntRange(0, 2).Draw(rt, "noIter") == 0
+		c.Full = mountOK() && rapid.IntRange(0, 4).Draw(rt, "full") == 0
 		c.Missing = rapid.IntRange(0, 3).Draw(rt, "missingTarget") == 0
 		c.PreRoot = rapid.IntRange(0, 3).Draw(rt, "preRoot") == 0
 		if route == "mkdir-root" && rapid.IntRange(0, 2).Draw(rt, "withPreOps") == 0 {
